@@ -53,8 +53,10 @@ def variants(toks, pairs):
     for g in range(n + 1):
         for name, d in _directives():
             yield (f"dir{g}:{name}", base, {g: [d]})
-            # the same directive when every token sits alone on its line
-            yield (f"dirnl{g}:{name}", ["\n"] * (n - 1), {g: [d]})
+            # the same directive when every token sits alone on its line (the
+            # forms without a file name: what follows them on the next line matters)
+            if name == "line" or n <= 12:
+                yield (f"dirnl{g}:{name}", ["\n"] * (n - 1), {g: [d]})
     # the same directive before EVERY token, one token per line: all tokens then
     # share one (file, line, column) - anything keyed by a token's position collides
     for name, d in _directives():
